@@ -23,6 +23,8 @@ func checkC01(p *Prog, r *Report) {
 	ruleSelfPrintingValues(p, a, r, "R-C01-SELFPRINT")
 	ruleNestingBound(p, a, r, "R-C01-NEST")
 	ruleC01Recursion(p, a, r)
+	ruleC01Reentry(p, a, r)
+	ruleC01UserMethods(p, a, r)
 	ruleDivisionGuards(p, a, r, "R-C01-D", false)
 	ruleC01Panics(p, a, r)
 	ruleResourceCaps(p, a, r, "R-C01-CAP")
